@@ -14,7 +14,9 @@ def basis_desc(draw, kinds=KINDS, max_order=4, min_order=1):
     k = draw(st.sampled_from(list(kinds)))
     return dict(kind=k, picks=draw(st.lists(st.integers(0, 10**4), min_size=1, max_size=10)),
                 side=draw(st.integers(0, 1)), intorder=draw(st.integers(min_order, max_order)),
-                ori=draw(st.lists(st.integers(0, 1), min_size=1, max_size=5)))
+                ori=draw(st.lists(st.integers(0, 1), min_size=1, max_size=5)),
+                # how the user gets hold of the basis object: the constructor, or one of the documented derivations of another basis
+                via=draw(st.sampled_from(['direct', 'direct', 'direct', 'with_element', 'with_elements', 'boundary', 'quadrature'])))
 
 
 def cap_order(kind, n, facet=False):
@@ -55,7 +57,7 @@ def resolve(m, bdesc, mesh_kind):
     inner = np.setdiff1d(np.arange(m.nfacets), bf).astype(np.int32)
     if kind in ('interior', 'interiorsub', 'oriented') and len(inner) == 0:
         kind = 'bnd'
-    out = dict(kind=kind, side=0, intorder=bdesc['intorder'])
+    out = dict(kind=kind, side=0, intorder=bdesc['intorder'], via=bdesc.get('via', 'direct'))
     if kind == 'cellsub':
         out['cells'] = uniq(bdesc['picks'], np.arange(m.nelements))
     elif kind == 'facetsub':
@@ -74,6 +76,39 @@ def resolve(m, bdesc, mesh_kind):
 
 
 def build(m, elem, r, side=None):
+    b = _build_direct(m, elem, r, side)
+    via = r.get('via', 'direct')
+    from skfem import CellBasis, FacetBasis, InteriorFacetBasis
+    kind = r['kind']
+    s = r['side'] if side is None else side
+    try:
+        if via == 'with_element':
+            # the same integration entities and quadrature, obtained from a basis with the mesh's own element
+            return _build_direct(m, m.elem(), r, side).with_element(elem)
+        if via == 'with_elements' and kind in ('cell', 'cellsub'):
+            return CellBasis(m, elem, intorder=r['intorder']).with_elements(r['cells'] if kind == 'cellsub' else None)
+        if via == 'boundary' and kind in ('bnd', 'facetsub'):
+            return CellBasis(m, elem, intorder=r['intorder']).boundary(r['facets'] if kind == 'facetsub' else None, intorder=r['intorder'])
+        if via == 'quadrature':
+            kw = dict(quadrature=b.quadrature)
+            if kind == 'cell':
+                return CellBasis(m, elem, **kw)
+            if kind == 'cellsub':
+                return CellBasis(m, elem, elements=r['cells'], **kw)
+            if kind == 'bnd':
+                return FacetBasis(m, elem, **kw)
+            if kind == 'facetsub':
+                return FacetBasis(m, elem, facets=r['facets'], **kw)
+            if kind == 'interior':
+                return InteriorFacetBasis(m, elem, side=s, **kw)
+            if kind == 'interiorsub':
+                return InteriorFacetBasis(m, elem, facets=r['facets'], side=s, **kw)
+    except NotImplementedError:
+        pass
+    return b
+
+
+def _build_direct(m, elem, r, side=None):
     from skfem import CellBasis, FacetBasis, InteriorFacetBasis
     kind = r['kind']
     io = r['intorder']
